@@ -573,6 +573,8 @@ func c01R2(p *core.Prog, r *core.Report) (verifiers map[*ssa.Function]bool) {
 	return verifiers
 }
 
+func isErr(t types.Type) bool { return types.Identical(t, types.Universe.Lookup("error").Type()) }
+
 func c01R3(p *core.Prog, r *core.Report) {
 	const rule = "C01.R3"
 	r.Rule(rule, "limit reader: both limit-exceeded edges return a fresh error and the slice handed to the underlying reader is bounded by the remaining limit", 3)
@@ -584,6 +586,40 @@ func c01R3(p *core.Prog, r *core.Report) {
 	fname := p.FuncName(fn)
 	n := 0
 	lim := modPath("internal/limitread")
+	// the end of the stream is reported by the source, never made up: every return hands back a fresh
+	// limit error or the error of the underlying Read (an EOF invented at the limit hides trailing bytes
+	// from the limit check, the digester and the byte count)
+	{
+		bad := ""
+		for _, f := range sortedFuncs(core.Helpers(fn, 2)) {
+			for _, ret := range core.Returns(f) {
+				if len(ret.Results) < 2 || !isErr(ret.Results[len(ret.Results)-1].Type()) {
+					continue
+				}
+				ok := true
+				for _, o := range core.Origins(core.ReturnOperand(ret, len(ret.Results)-1), core.SliceOpts{Helpers: core.Helpers(fn, 2)}) {
+					switch o.Kind {
+					case core.OCall:
+						cal := o.Callee()
+						fresh := cal != nil && (core.IsFunc(cal, "fmt", "Errorf") || core.IsFunc(cal, "errors", "New"))
+						src := o.Call.Call.IsInvoke() && o.Call.Call.Method.Name() == "Read"
+						if !fresh && !src {
+							ok = false
+						}
+					case core.OParam:
+						// an error handed to a helper by its caller
+					default:
+						ok = false
+					}
+				}
+				if !ok {
+					bad = p.Pos(ret.Pos())
+				}
+			}
+		}
+		n++
+		r.Check(bad == "", rule, fname, "end of stream comes from the source", p.Pos(fn.Pos()), "the return at "+bad+" reports an error (or a clean end) that neither is a fresh limit error nor comes from the underlying reader: an end of stream invented at the limit means the byte after the limit is never read, so an over-long stream ends cleanly")
+	}
 	freshErrRet := func(succ *ssa.BasicBlock) bool {
 		ret, isRet := core.LastInstr(succ).(*ssa.Return)
 		if !isRet {
